@@ -57,6 +57,8 @@ def main(argv=None) -> int:
 
             sens = selftest.sensitivity(prop)
         return finish(res, args.tier, started, write_evidence=not args.no_evidence, selftest=sens, as_json=args.json)
+    except BrokenPipeError:
+        return 1
     except AnalysisError as exc:
         print(f"ANALYSIS-ERROR property={prop} {exc}")
         return 2
